@@ -7,9 +7,11 @@
 (* service's port, app2 listening on both other ports).  The model takes   *)
 (* every alternative the specification allows (both ends of the timing     *)
 (* window, both outcomes of the power latitude).                            *)
+(* MC_Software.cfg: safety over all layouts; MC_SoftwareLive.cfg: liveness *)
+(* of the timed completions (ports play no part in it: one layout).        *)
 EXTENDS Software, TLC
 
-CONSTANTS MaxDur
+CONSTANTS MaxDur, Layouts   \* Layouts \subseteq 1..3: which port layouts to sweep
 
 \* flips on every step that may leave the state unchanged, so that refused
 \* requests and payloads are real steps of the behaviours handed to the driver
@@ -20,9 +22,10 @@ S == {"svc"}
 A == {"app", "app2"}
 N == S \cup A
 AllPorts == {1, 2, 3}
-PortMaps == { ("svc" :> {1} @@ "app" :> {2} @@ "app2" :> {3}),
+PortMap == << ("svc" :> {1} @@ "app" :> {2} @@ "app2" :> {3}),
               ("svc" :> {1} @@ "app" :> {2} @@ "app2" :> {1}),
-              ("svc" :> {1} @@ "app" :> {2} @@ "app2" :> {1, 2}) }
+              ("svc" :> {1} @@ "app" :> {2} @@ "app2" :> {1, 2}) >>
+PortMaps == {PortMap[i] : i \in Layouts}
 Op0 == ("svc" :> "RUNNING" @@ "app" :> "RUNNING" @@ "app2" :> "ABSENT")
 
 SvcVerbs == {"start", "stop", "pause", "resume", "restart", "disable", "enable", "scan", "fix"}
